@@ -247,9 +247,12 @@ def check_concat(case):
 def series_cases(draw):
     what = draw(st.sampled_from(['s_concat', 's_concat_items', 's_overlay', 'f_overlay']))  # decisive choices first
     union, explicit = draw(st.booleans()), draw(st.booleans())
+    hier = draw(st.integers(0, 3)) == 3   # overlay inputs labelled by a two-level hierarchy
     k = draw(st.sampled_from([2, 3, 1, 4]))
     n = draw(st.sampled_from([3, 2, 4, 1, 5, 6]))
     pool = draw(gen.flat_labels(n, draw(st.sampled_from(['str', 'int']))))
+    if hier and what in ('s_overlay', 'f_overlay'):
+        pool = [('g%d' % (i * 2 // n), l) for i, l in enumerate(pool)]
     ins = []
     for q in range(k):
         pos = [p for p in draw(st.permutations(list(range(n)))) if draw(st.booleans())]
@@ -261,11 +264,24 @@ def series_cases(draw):
             ins.append({'pos': pos, 'cpos': cpos, 'blocks': draw(gen.blocks(len(pos), len(cpos), kinds=('float64', 'object', 'int64'), missing=True))})
         else:
             ins.append({'pos': pos, 'values': draw(gen.column(kind, len(pos)))})
-    return {'pool': pool, 'what': what, 'ins': ins, 'union': union, 'explicit': explicit}
+    return {'pool': pool, 'what': what, 'ins': ins, 'union': union, 'explicit': explicit, 'hier': hier and what in ('s_overlay', 'f_overlay')}
+
+
+def _overlay_index(case, pos):
+    """Row labels of one overlay input: flat labels, or a hierarchy (its labels kept in tree form: grouped by outer label)."""
+    pool = case['pool']
+    if not case.get('hier'):
+        return [pool[p] for p in pos], list(pos)
+    pos = sorted(pos, key=lambda p: pool[p][0])
+    if not pos:
+        return sf.IndexHierarchy.from_labels((), depth_reference=2), pos
+    return sf.IndexHierarchy.from_labels([pool[p] for p in pos]), pos
 
 
 def check_series(case):
     pool, what = case['pool'], case['what']
+    if case.get('hier'):
+        case = dict(case, ins=[dict(x) for x in case['ins']])
     if what in ('s_concat', 's_concat_items'):
         ss = [sf.Series(x['values'], index=[pool[p] for p in x['pos']]) for x in case['ins']]
         if what == 's_concat':
@@ -287,7 +303,13 @@ def check_series(case):
         obs.expect_series(r, labels, vals, what)
         return {'nt': len(ss) >= 2, 'cls': [what]}
     if what == 's_overlay':
-        ss = [sf.Series(x['values'], index=[pool[p] for p in x['pos']]) for x in case['ins']]
+        # (values stay attached to the position they were drawn for; a hierarchy only reorders the rows of an input)
+        ss = []
+        for x in case['ins']:
+            ixo, order = _overlay_index(case, x['pos'])
+            vals = {p: v for p, v in zip(x['pos'], arr_list(x['values']))}
+            arr = x['values'][[list(x['pos']).index(p) for p in order]] if len(order) else x['values']
+            ss.append(sf.Series(arr, index=ixo))
         per = [{_hk(pool[p]): v for p, v in zip(x['pos'], arr_list(x['values']))} for x in case['ins']]
         labels_per = [[pool[p] for p in x['pos']] for x in case['ins']]
         if case['union']:
@@ -301,7 +323,7 @@ def check_series(case):
         kw = {'union': case['union']}
         if case['explicit']:
             labels = list(pool)
-            kw = {'index': list(pool)}
+            kw = {'index': sf.IndexHierarchy.from_labels(pool) if case.get('hier') else list(pool)}
         r = lib(lambda: sf.Series.from_overlay(ss, **kw))
         if isinstance(r, Raised):
             raise Failure('raised:%s' % r.cls, 'Series.from_overlay raised %r' % r.exc, r.where)
@@ -321,7 +343,7 @@ def check_series(case):
                     raise Failure('value', 'overlay[%r] = %r expected first non-missing %r' % (l, g, w))
             elif not is_missing(g):
                 raise Failure('value', 'overlay[%r] = %r but every input is missing there' % (l, g))
-        return {'nt': len(ss) >= 2, 'cls': [what, 'union' if case['union'] else 'intersection']}
+        return {'nt': len(ss) >= 2, 'cls': [what, 'union' if case['union'] else 'intersection', 'hier' if case.get('hier') else 'flat']}
     # frame overlay
     cpool = ['c0', 'c1', 'c2']
     fs = []
@@ -330,7 +352,13 @@ def check_series(case):
         idx = [pool[p] for p in x['pos']]
         cols = [cpool[p] for p in x['cpos']]
         tb = sf.TypeBlocks.from_blocks([gen.freeze(b) for b in x['blocks']], shape_reference=(len(idx), len(cols)))
-        fs.append(sf.Frame(tb, index=idx, columns=cols, own_data=True))
+        fr = sf.Frame(tb, index=idx if not case.get('hier') else sf.Index(idx, dtype=object) if idx else None, columns=cols, own_data=True)
+        if case.get('hier') and idx:
+            ixo, order = _overlay_index(case, x['pos'])
+            fr = fr.iloc[[list(x['pos']).index(p) for p in order]].relabel(index=ixo)
+        elif case.get('hier'):
+            fr = fr.relabel(index=_overlay_index(case, [])[0])
+        fs.append(fr)
         carr = gen.block_columns(x['blocks'])
         per.append({(_hk(r), c): arr_list(carr[j])[i] for j, c in enumerate(cols) for i, r in enumerate(idx)})
     r = lib(lambda: sf.Frame.from_overlay(fs, union=case['union']))
@@ -365,7 +393,7 @@ def check_series(case):
                     raise Failure('value', 'overlay[%r,%r] = %r expected first non-missing %r' % (rr, c, g, w))
             elif not is_missing(g):
                 raise Failure('value', 'overlay[%r,%r] = %r but every input is missing there' % (rr, c, g))
-    return {'nt': len(fs) >= 2, 'cls': [what, 'union' if case['union'] else 'intersection']}
+    return {'nt': len(fs) >= 2, 'cls': [what, 'union' if case['union'] else 'intersection', 'hier' if case.get('hier') else 'flat']}
 
 
 def _expected_empty(case):
